@@ -85,6 +85,14 @@ def txpEngine (args : List String) : String :=
         | some ts => s!"est {estimate payer ixs ver (some ts)} wire {wireLen payer ixs ver ts}"
         | none => "bad-op"
     | _, _, _ => "bad-op"
+  | ["sizeset", payer, ver, luts, ixs] =>
+    match pNat payer, pBool ver, pIxs ixs with
+    | some payer, some ver, some ixs =>
+      if luts = "none" then s!"est {estimateSet payer ixs ver none 0} wire {wireLen payer ixs ver []}"
+      else match pLuts luts with
+        | some ts => s!"est {estimateSet payer ixs ver (some ts.flatten) ts.length} wire {wireLen payer ixs ver ts}"
+        | none => "bad-op"
+    | _, _, _ => "bad-op"
   | "opt" :: allow :: maxSize :: maxIx :: memo :: luts :: pgs =>
     match pBool allow, pNat maxSize, pNat maxIx, pMemo memo, pLuts luts, pgs.mapM pPG with
     | some allow, some maxSize, some maxIx, some memo, some luts, some pgs =>
